@@ -3,7 +3,10 @@ happened to the backend before: crash at every commit, transient fault at every 
 from another repository."""
 LEVEL = "fault_enumeration"
 
-ROOTS = {"chain-shallow": ("top", ["top", "mid", "leaf"]), "fan-shallow": ("fanout", ["fanout", "leaf", "idt"])}
+ROOTS = {"chain-shallow": ("top", ["top", "mid", "leaf"], {"top": {"check_valid": "shallow"}}),
+         "fan-shallow": ("fanout", ["fanout", "leaf", "idt"], {"fanout": {"check_valid": "shallow"}}),
+         # children run without provenance: their tasks are only known through the parent's subtree-task rows
+         "noprov-shallow": ("top", ["top", "mid", "leaf"], {"top": {"check_valid": "shallow"}, "mid": {"prov": False}})}
 
 
 def transfer_leg(ctx):
@@ -14,8 +17,7 @@ def transfer_leg(ctx):
     from engine import crash, seams
 
     n = 0
-    for wname, (root, editable) in ROOTS.items():
-        shallow = {root: {"check_valid": "shallow"}}
+    for wname, (root, editable, shallow) in ROOTS.items():
 
         def wl(env):
             return [env.run(E.T(root)(1))]
@@ -69,9 +71,10 @@ def transfer_leg(ctx):
 def run(ctx):
     from checks import crash_common
 
-    crash_common.WORKLOADS["fan-shallow"] = ("fanout", 1, ["fanout", "leaf", "idt"], None)
-    crash_common.SHALLOW["fan-shallow"] = {"fanout": {"check_valid": "shallow"}}
-    wl = ctx.pick(["chain-shallow"], ["chain-shallow", "fan-shallow"])
+    for w, (root, editable, opts) in ROOTS.items():
+        crash_common.WORKLOADS[w] = (root, 1, editable, None)
+        crash_common.SHALLOW[w] = opts
+    wl = ctx.pick(["chain-shallow", "noprov-shallow"], ["chain-shallow", "fan-shallow", "noprov-shallow"])
     cov = crash_common.run_property(ctx, "C03", wl)
     n = transfer_leg(ctx)
     cov["evaluations"] += n
